@@ -105,7 +105,10 @@ def gen_plan(rng, tier, idx, opts):
         elif kind in ("su", "sumimo") and rng.random() < 0.25:
             plan["ops"].append({"op": "set_antennas", "Nr": rng.randint(1, 3), "Nt": rng.randint(1, 3)})   # re-dimension between transmissions
         elif kind in ("su", "sumimo", "mu", "mumimo"):
-            if rng.random() < 0.25:
+            r2 = rng.random()
+            if r2 < 0.2:                # a REJECTED path loss (outside [0, 1]); the caller keeps using the channel
+                plan["ops"].append({"op": "pathloss_bad", "v": rng.choice([1.5, 4.0, -0.25, 1.0000001, -1e-9]), "seed": s()})
+            elif r2 < 0.4:
                 plan["ops"].append({"op": "pathloss", "seed": None})
             else:
                 plan["ops"].append({"op": "pathloss", "seed": s()})
@@ -301,6 +304,24 @@ def execute(plan):
                     switched = bool(pub)
                     log.add("switch_bad", op["v"], switched)
                     continue
+                if o == "pathloss_bad":
+                    # the statement only needs output == convolution with the REPORTED response afterwards; what the
+                    # path loss "is" after a rejected call is the library's business
+                    try:
+                        if multi:
+                            rs = np.random.RandomState(op["seed"])
+                            m_bad = rs.uniform(1e-6, 1.0, size=(U_rx, U_tx))
+                            m_bad[rs.randint(U_rx), rs.randint(U_tx)] = op["v"]
+                            ch.set_pathloss(m_bad)
+                        else:
+                            ch.set_pathloss(op["v"])
+                        bump(res["probes"], "out_of_range_pathloss_accepted")
+                    except ValueError:
+                        bump(res["faults"], "rejected-setter")
+                        bump(res["probes"], "pathloss_rejected_then_channel_reused")
+                    pl = "after-rejected"
+                    log.add("pathloss_bad", op["v"])
+                    continue
                 if o == "pathloss":
                     if op["seed"] is None:
                         if multi:
@@ -438,7 +459,7 @@ def shrink(plan):
         if k2 not in ("mu", "mumimo"):
             c["users"] = [1, 1]
         if k2 in ("tdl", "tdlmimo"):
-            c["ops"] = [o for o in c["ops"] if o["op"] != "pathloss"] or c["ops"]
+            c["ops"] = [o for o in c["ops"] if o["op"] not in ("pathloss", "pathloss_bad")] or c["ops"]
         yield c
     if plan["gen"] != "rayleigh":
         c = P()
@@ -448,7 +469,7 @@ def shrink(plan):
         c = P()
         c["profile"] = {"delays": [0.0], "powers_dB": [0.0]}
         yield c
-    else:
+    elif "delays" in plan["profile"]:
         pr = plan["profile"]
         if len(pr["delays"]) > 1:
             for i in range(len(pr["delays"])):
